@@ -444,6 +444,13 @@ func (g *gen) rewritePkgRefs(info *types.Info, node ast.Node) ast.Node {
 			if obj == nil {
 				return false
 			}
+			if v, ok := obj.(*types.Var); ok && v.Embedded() {
+				// The identifier of an embedded field both declares the field
+				// and refers to its type, which may come from a dot import.
+				if use := info.Uses[node]; use != nil {
+					obj = use
+				}
+			}
 			if pkg := obj.Pkg(); pkg != nil && obj.Parent() == pkg.Scope() && pkg.Path() != g.pkg.PkgPath {
 				// An identifier from either a dot import or read from a different package.
 				newPkgID := g.qualifyImport(pkg.Name(), pkg.Path())
